@@ -7,8 +7,15 @@ and look only at the case and at what the implementation did.
 
 A command's outcome is one of: exit 0 / a positive exit code / a NEGATIVE return code (the command
 kills itself with a signal) / it cannot be started at all (no such executable, file not executable,
-instruction that cannot be split into arguments, missing cwd of its map). Its output is ASCII text of any
-size (a family writes more than a pipe buffer to stdout / stderr / both).
+instruction that cannot be split into arguments, missing cwd of its map). Its output is bytes of any size
+(a family writes more than a pipe buffer to stdout / stderr / both): ASCII text, or bytes that are NOT text
+under the encoding of its command (ff fe ...: undecodable under utf-8 / ascii, fine under latin-1).
+A command map may set `encoding`, `bytes`, `stdout` / `stderr` (a file - new, existing, appended to, or a path
+that cannot be opened -, /dev/null, /dev/stdout) and `append`.
+
+The model reads the step's configuration VALUE itself (Cmd.parseCmdConfig, mirror of CmdStep.__init__ /
+create_command); the harness only replaces placeholders by real command lines and paths. The constructors are
+tied separately on generated configuration values incl. malformed ones (check_parse: no process is started).
 
 Every case runs in a process group of its own under a deadline (impl.isolated): a step that never returns
 (an event loop that never finishes, a pipe nobody drains) is the observation `hang` and the violation
@@ -32,8 +39,16 @@ TRUSTED = ['harness/props/c17.py, harness/impl_c17.py (child script, release pro
            'CPython subprocess / asyncio subprocess / shlex, /bin/sh, OS process exit status and signal delivery']
 ASSUMPTIONS = [
     'a command is characterised by whether it can be started (else: the exception type of the spawn call), its '
-    'exit status (0, 1..255, or -N for death by signal N) and the ASCII text it writes; output redirection to '
-    'files and non-default encodings are outside the model',
+    'exit status (0, 1..255, or -N for death by signal N), the bytes it writes (ASCII text, or bytes a1..ff) and '
+    'whether these are text under the encoding of its command (decided by the codec library); encodings: the '
+    'default (utf-8), utf-8, latin-1, ascii; non-ASCII output that is valid utf-8, and `\\r` in text output, are '
+    'outside the model',
+    'an output path is characterised by whether it can be opened (else: is a directory / its parent is a regular '
+    'file) and its previous content; two concurrent commands writing one file, stdout and stderr of one command '
+    'to one file, and stdout: /dev/stdout are outside the model',
+    'the configuration value is what context.get_formatted returns (no {…} expressions); values of `run`, '
+    '`cwd`, `encoding`, `stdout`, `stderr` of a type the code only trips over when the command runs are outside '
+    'the model (the driver rejects them)',
     'OS scheduling of concurrent commands is replaced by the release protocol: completion order = the order in '
     'which the harness lets the processes exit (each exit is awaited, incl. reaping, before the next release)',
     'under a shell (shell/shells) a missing or non-executable program is an ordinary exit 127/126 of the shell, '
@@ -321,6 +336,168 @@ def big_output_cases(env):
     return dedup(cases)
 
 
+def und_bytes(i):
+    """Bytes that are not text in utf-8 / ascii (latin-1 reads them fine), one character per byte; `#<id>` lets
+    the harness tell whose output a UnicodeDecodeError is about."""
+    return '\xff\xfe#%d\n' % i
+
+
+DECODE_SETTINGS = [
+    ('save', {'save': True}), ('save+bytes', {'save': True, 'bytes': True}),
+    ('save+bytes+utf-8', {'save': True, 'bytes': True, 'encoding': 'utf-8'}),
+    ('save+utf-8', {'save': True, 'encoding': 'utf-8'}), ('save+ascii', {'save': True, 'encoding': 'ascii'}),
+    ('save+latin-1', {'save': True, 'encoding': 'latin-1'}), ('nosave', {'save': False}),
+    ('nosave+utf-8', {'save': False, 'encoding': 'utf-8'}),
+]
+
+
+def decode_cases(env):
+    """Directed: one command whose output is not text (ff fe ...) at each position of 1-3 commands, on stdout or
+    stderr, exiting 0 or 3, with and without a later exit 1 x every decoding setting (save text / bytes / bytes +
+    encoding / utf-8 / ascii / latin-1 / no save) x run list / list of maps (serial), top-level lanes / serial
+    sub-list (concurrent), all four steps."""
+    cases = []
+    j = 0
+    for n in (1, 2, 3):
+        for pos in range(n):
+            for stream in ('out', 'err'):
+                for code in (0, 3):
+                    for tail in ((0,), (1,)) if pos < n - 1 else ((0,),):
+                        v = [0] * n
+                        v[n - 1] = tail[0]
+                        v[pos] = code
+                        for sname, st in DECODE_SETTINGS:
+                            j += 1
+                            ps = mk_procs(v, j)
+                            ps[pos][stream] = und_bytes(ps[pos]['id'])
+                            meta = {'n': n, 'decode': sname, 'pos': pos_name(pos, n), 'fault': 'undecodable-' + stream}
+                            # serial
+                            shapes = [('runlist/' + sname, {'map': {'run': {'list': list(ps)}, **st}}),
+                                      ('expanded/' + sname, {'list': [{'map': {'run': {'str': p}, **st}} for p in ps]})]
+                            for k, (shape, cfg) in enumerate(shapes):
+                                cases.append({'kind': 'serial', 'step': 'cmd' if (j + k) % 2 else 'shell', 'shape': shape,
+                                              'cfg': copy.deepcopy(cfg), **meta})
+                            # concurrent: every command a lane / one serial sub-list / first alone + rest sub-list
+                            parts = [[1] * n, [n]] + ([[1, n - 1]] if n == 3 else [])
+                            for k, part in enumerate(parts):
+                                lanes = cut(ps, part)
+                                entries = [({'str': l[0]} if len(l) == 1 else {'sub': l}) for l in lanes]
+                                if part == [n]:
+                                    entries = [{'sub': list(ps)}]
+                                scheds = schedules([len(l) for l in lanes] if part != [n] else [n], full=True)
+                                cases.append({'kind': 'async', 'step': 'cmds' if (j + k) % 2 else 'shells',
+                                              'shape': 'maprun/' + sname, 'lanes': len(entries),
+                                              'cfg': {'map': {'run': {'list': copy.deepcopy(entries)}, **st}},
+                                              'sched': scheds[j % len(scheds)], **meta})
+    return dedup(cases)
+
+
+def F(k, **kw):
+    return {'file': k, **kw}
+
+
+REDIRECTS = [
+    ('out-file', {'stdout': F(1)}), ('out-file-overwrite', {'stdout': F(1, pre='old\n')}),
+    ('out-file-append', {'stdout': F(1, pre='old\n'), 'append': True}), ('out-new-append', {'stdout': F(1), 'append': True}),
+    ('err-file', {'stderr': F(2)}), ('both-files', {'stdout': F(1), 'stderr': F(2)}),
+    ('err-to-stdout-file', {'stdout': F(1), 'stderr': 'stdout'}), ('devnull', {'stdout': 'devnull', 'stderr': 'devnull'}),
+    ('err-to-stdout', {'stderr': 'stdout'}), ('out-devnull-err-file', {'stdout': 'devnull', 'stderr': F(2, pre='e0\n')}),
+    ('both-append', {'stdout': F(1, pre='keep\n'), 'stderr': F(2, pre='e0\n'), 'append': True}),
+    ('out-isdir', {'stdout': F(1, bad='isDir')}), ('out-parent-is-file', {'stdout': F(1, bad='parentFile')}),
+    ('err-isdir', {'stderr': F(2, bad='isDir')}), ('out-ok-err-isdir', {'stdout': F(1, pre='old\n'), 'stderr': F(2, bad='isDir')}),
+    ('out-append-err-parent-is-file', {'stdout': F(1, pre='old\n'), 'stderr': F(2, bad='parentFile'), 'append': True}),
+]
+
+
+def redirect_cases(env):
+    """Directed: a command map with `stdout` / `stderr` (new file, existing file overwritten / appended to,
+    /dev/null, stderr to /dev/stdout, a path that is a directory, a path whose parent is a regular file) x exit-code
+    vectors x the map alone / between a `save` command and a plain one (what ran before a file that cannot be
+    opened keeps its results; nothing of the map or after it runs) x serial and concurrent."""
+    cases = []
+    j = 0
+    for rname, rd in REDIRECTS:
+        for v in ([0], [3], [0, 0], [0, 1], [1, 0], [-9, 0]):
+            j += 1
+            n = len(v)
+            ps = mk_procs(v, j)
+            for p in ps:
+                if not p['out']:
+                    p['out'] = 'o%d\n' % p['id']
+                if not p['err']:
+                    p['err'] = 'e%d \n' % p['id']
+            m = {'run': {'list': list(ps)} if n > 1 else {'str': ps[0]}, **copy.deepcopy(rd)}
+            before = {'id': 8, 'code': 0, 'out': 'before\n', 'err': ''}
+            after = {'id': 9, 'code': 0, 'out': '', 'err': ''}
+            alone = {'map': m}
+            framed = {'list': [{'map': {'run': {'str': before}, 'save': True}}, {'map': copy.deepcopy(m)}, {'str': after}]}
+            failing_before = {'list': [{'map': {'run': {'str': {**before, 'code': 2}}, 'save': True}}, {'map': copy.deepcopy(m)}]}
+            meta = {'redirect': rname}
+            for k, (shape, cfg) in enumerate((('redirect', alone), ('redirect-framed', framed),
+                                              ('redirect-after-failure', failing_before))):
+                nn = len(impl.all_procs_serial(cfg))
+                cases.append({'kind': 'serial', 'step': 'cmd' if (j + k) % 2 else 'shell', 'shape': shape + '/' + rname,
+                              'n': nn, 'cfg': copy.deepcopy(cfg), **meta})
+            # concurrent: the commands of the map as lanes, or as one serial sub-list
+            for k, entries in enumerate(([{'str': p} for p in ps], [{'sub': list(ps)}])):
+                if n == 1 and k == 1:
+                    continue
+                am = {'run': {'list': copy.deepcopy(entries)}, **copy.deepcopy(rd)}
+                for shape, cfg in (('redirect', {'map': am}),
+                                   ('redirect-framed', {'list': [{'map': {'run': {'str': before}, 'save': True}},
+                                                                 {'map': copy.deepcopy(am)}, {'str': after}]})):
+                    nl = len(impl.async_lanes(cfg))
+                    lens = [len(ps_) for ps_, _, _ in impl.async_lanes(cfg)]
+                    scheds = schedules(lens, full=True) if lens else [[]]
+                    cases.append({'kind': 'async', 'step': 'cmds' if (j + k) % 2 else 'shells', 'shape': shape + '/' + rname,
+                                  'n': len(impl.all_procs_serial(cfg)), 'lanes': nl, 'cfg': copy.deepcopy(cfg),
+                                  'sched': scheds[j % len(scheds)], **meta})
+    return dedup(cases)
+
+
+def decorate(rng, cfg, is_async, counter):
+    """Random stream: give the command maps of a generated configuration an encoding / output redirection and
+    some commands non-text output."""
+    def fix_map(m):
+        ps = impl.map_procs(m)
+        if any(p.get('spawn') == 'cwd' for p in ps):
+            return
+        r = rng.random()
+        if r < 0.35:
+            m['encoding'] = rng.choice(('utf-8', 'latin-1', 'ascii'))
+        if not m.get('save') and rng.random() < 0.45:
+            for k in ('stdout', 'stderr'):
+                q = rng.random()
+                if q < 0.35:
+                    counter[0] += 1
+                    t = F(counter[0])
+                    qq = rng.random()
+                    if qq < 0.15:
+                        t['bad'] = rng.choice(('isDir', 'parentFile'))
+                    elif qq < 0.5:
+                        t['pre'] = rng.choice(('old\n', 'x', ''))
+                    m[k] = t
+                elif q < 0.5:
+                    m[k] = 'devnull'
+                elif q < 0.6 and k == 'stderr':
+                    m[k] = 'stdout'
+            if rng.random() < 0.5:
+                m['append'] = True
+        for p in ps:
+            if not p.get('spawn') and rng.random() < 0.2:
+                p[rng.choice(('out', 'err'))] = und_bytes(p['id'])
+
+    def fix_item(it):
+        if 'map' in it:
+            fix_map(it['map'])
+    if 'list' in cfg:
+        for it in cfg['list']:
+            fix_item(it)
+    else:
+        fix_item(cfg)
+    return cfg
+
+
 def fault_name(f):
     if isinstance(f, str):
         return 'unstartable:' + f
@@ -360,6 +537,7 @@ def random_cases(env, count):
     cannot happen, the drain finishes)."""
     rng = env.rng
     cases = []
+    counter = [0]
     for _ in range(count):
         n = rng.randint(1, 4)
         serial = rng.random() < 0.4
@@ -374,14 +552,17 @@ def random_cases(env, count):
             ps.append(p)
         if serial:
             shape, cfg = rng.choice(serial_shapes(ps, n))
-            cases.append({'kind': 'serial', 'step': step, 'shape': 'rnd:' + shape, 'n': n, 'cfg': norm_cfg(cfg)})
+            cases.append({'kind': 'serial', 'step': step, 'shape': 'rnd:' + shape, 'n': n,
+                          'cfg': decorate(rng, norm_cfg(cfg), False, counter),
+                          'prev': rng.choice(('str', 'str', 'absent', 'list'))})
         else:
             part = rng.choice(list(lane_partitions(n)))
             lanes = cut(ps, part)
             shape, cfg = rng.choice(async_shapes(lanes, rng.randint(0, 9)))
             sched = [rng.randint(0, len(part)) for _ in range(rng.randint(0, 2 * n))]
+            cfg = decorate(rng, norm_cfg(cfg), True, counter)
             cases.append({'kind': 'async', 'step': step, 'shape': 'rnd:' + shape, 'n': n,
-                          'lanes': len(part), 'cfg': norm_cfg(cfg), 'sched': sched})
+                          'lanes': len(impl.async_lanes(cfg)), 'cfg': cfg, 'sched': sched})
     return cases
 
 
@@ -389,19 +570,32 @@ def random_cases(env, count):
 # model side
 # --------------------------------------------------------------------------
 
+OPEN_TYPE = {'isDir': 'IsADirectoryError', 'parentFile': 'FileExistsError'}
+
+
 def model_requests(case):
-    if case['kind'] == 'serial':
-        return ('cmd.serial', {'cmds': impl.serial_model_cmds(case['cfg'])})
-    return ('cmd.async', {'cmds': impl.async_model_cmds(case['cfg']), 'sched': case['sched']})
+    cfg = case['cfg']
+    is_async = case['kind'] == 'async'
+    payload = {'cfg': common.enc(impl.cfg_value(cfg)), 'shell': case['step'] in ('shell', 'shells'),
+               'world': impl.world_of(cfg, is_async)}
+    if is_async:
+        payload['sched'] = case['sched']
+        return ('cmd.async', payload)
+    has_prev, prev = impl.prev_value(case)
+    if has_prev:
+        payload['prev'] = common.enc(prev)
+    return ('cmd.serial', payload)
 
 
 def case_procs(case):
-    return impl.all_procs_serial(case['cfg']) if case['kind'] == 'serial' else impl.all_procs_async(case['cfg'])
+    return impl.all_procs_serial(case['cfg'])
 
 
 def model_view(case, m):
     """Bring the model's observation to the shape of the implementation's."""
     procs = case_procs(case)
+    if 'ctor_err' in m:
+        return {'ctor_err': m['ctor_err']}
 
     def res(r):
         return {**r, 'cmd_ok': True}
@@ -409,6 +603,10 @@ def model_view(case, m):
     def err(e, exit_type):
         if 'spawn' in e:
             return {'spawn': impl.spawn_label(procs[e['id']]), 'type': impl.KIND_TYPE[e['spawn']]}
+        if 'decode' in e:
+            return {'decode': e['decode'], 'type': 'UnicodeDecodeError'}
+        if 'open' in e:
+            return {'open': e['open'], 'type': OPEN_TYPE[e['kind']]}
         return {**e, 'type': exit_type, 'cmd_ok': True}
 
     def item(i):
@@ -421,14 +619,20 @@ def model_view(case, m):
         co = m['cmdOut']
         if co is not None:
             co = {'single': res(co['single'])} if 'single' in co else {'many': [res(r) for r in co['many']]}
-        return {'started': m['started'], 'err': e, 'results': [res(r) for r in m['results']], 'cmdOut': co}
+        af = m['after']
+        if 'single' in af:
+            af = {'single': res(af['single'])}
+        elif 'many' in af:
+            af = {'many': [res(r) for r in af['many']]}
+        return {'started': m['started'], 'err': e, 'results': [res(r) for r in m['results']], 'cmdOut': co,
+                'after': af, 'files': m['files']}
     co = m['cmdOut']
     if co is not None:
         co = [({'res': item(s['one'])} if 'one' in s else {'sub': [item(i) for i in s['sub']]}) for s in co]
     errors = [err(e, 'pypyr.errors.SubprocessError') for e in m['errors']]
     return {'trace': impl.canon_trace(m['trace']), 'started': sorted(m['started']),
             'err_type': 'pypyr.errors.MultiError' if errors else None, 'errors': errors, 'cmdOut': co,
-            'running_at_return': m['running'], 'anomalies': []}
+            'running_at_return': m['running'], 'files': m['files'], 'anomalies': []}
 
 
 def impl_view(case, o):
@@ -445,8 +649,10 @@ def py_rstrip(s):
     return s.rstrip()
 
 
-def expected_streams(p, text):
-    if text:
+def expected_streams(p, c, is_async):
+    """What a saved result holds for command p of command object c: text mode strips trailing white space; the
+    synchronous step in bytes mode with an encoding gives the decoded text as it is; else the bytes."""
+    if c['text']:
         return py_rstrip(impl.eff_out(p)), py_rstrip(impl.eff_err(p))
     return impl.eff_out(p), impl.eff_err(p)
 
@@ -460,6 +666,14 @@ def stream_text(o):
 def failed(p):
     """Did not exit 0: a non-zero status - of either sign - or could not be started."""
     return bool(p.get('spawn')) or p['code'] != 0
+
+
+def undecodable(p, c, is_async):
+    """The command ran, its output is captured and decoded by its command, and is not text under the encoding."""
+    if p.get('spawn'):
+        return False
+    dec = impl.async_decodes(c) if is_async else impl.sync_decodes(c)
+    return dec and not impl.decodable(p, c['enc'])
 
 
 def attempted_prefix(ps):
@@ -490,24 +704,38 @@ def failure_key(p):
     return ('exit', p['id'], p['code'])
 
 
+def open_key(c):
+    lab, kind = impl.bad_target(c)
+    return ('open', lab, OPEN_TYPE[kind])
+
+
 def error_key(e):
     if 'spawn' in e:
         return ('spawn', e['spawn'], e.get('type'))
+    if 'open' in e:
+        return ('open', e['open'], e.get('type'))
+    if 'decode' in e:
+        return ('decode', e['decode'], e.get('type'))
     if 'id' in e:
         return ('exit', e['id'], e.get('code'))
     return ('other', e.get('type'), e.get('msg'))
 
 
-def check_results(got, want, where):
-    """got: result observations; want: [(P, text)] - one result per command run, in order."""
+def check_results(got, want, where, is_async):
+    """got: result observations; want: [(P, command object)] - one result per command run, in order."""
     bad = []
     if [r.get('id') for r in got] != [p['id'] for p, _ in want]:
         bad.append((where + ':results-not-one-per-command-run-in-declaration-order',
                     f"results for {[r.get('id', r) for r in got]}, commands run with save {[p['id'] for p, _ in want]}"))
         return bad
-    for r, (p, text) in zip(got, want):
-        so, se = expected_streams(p, text)
-        if r['code'] != p['code'] or stream_text(r['stdout']) != so or stream_text(r['stderr']) != se:
+    for r, (p, c) in zip(got, want):
+        if r['code'] != p['code']:
+            bad.append((where + ':result-content', f'command {p["id"]}: got {r}, scripted code={p["code"]}'))
+            continue
+        if undecodable(p, c, is_async):
+            continue        # the property does not say what the text of non-text is
+        so, se = expected_streams(p, c, is_async)
+        if stream_text(r['stdout']) != so or stream_text(r['stderr']) != se:
             bad.append((where + ':result-content', f'command {p["id"]}: got {r}, scripted code={p["code"]} out={so!r} err={se!r}'))
         elif not r.get('cmd_ok'):
             bad.append((where + ':result-cmd', f'command {p["id"]}: result carries another command'))
@@ -522,36 +750,71 @@ def monitor_hang(case, o):
              f"{h['started']}, finished {h['finished']}")]
 
 
+UNDEC = 'undecodable-output'
+
+
 def monitor_serial(case, o):
-    decls = impl.serial_decls(case['cfg'])
-    procs = [p for p, _, _ in decls]
-    att = attempted_prefix(procs)
-    run = actually_run(procs)
+    """From the property text. A command object whose output file cannot be opened counts as "its commands cannot
+    be started": the loop ends there, nothing of it or after it runs, the error is the one of the file."""
+    cmds = impl.commands(case['cfg'])
+    # the attempts the property prescribes: declaration order up to and including the first failure
+    att, first_fail = [], None       # att: [(P, c)] of the commands to attempt
+    for c in cmds:
+        if first_fail:
+            break
+        if impl.bad_target(c):
+            first_fail = open_key(c)
+            break
+        for p in c['procs']:
+            att.append((p, c))
+            if failed(p):
+                first_fail = failure_key(p)
+                break
+    run = [(p, c) for p, c in att if not p.get('spawn')]
     bad = []
-    if o['started'] != [p['id'] for p in run]:
+    # --- a command that ran, exited (0 or not) and wrote bytes that are not text: the step must not fail for
+    #     that, and must still hold its result ("succeeds iff every command it ran exited 0"; "one result per
+    #     command actually run")
+    und = next(((p, c) for p, c in run if undecodable(p, c, False)), None)
+    if und and o['err'] is not None and error_key(o['err'])[:2] == ('decode', und[0]['id']):
+        p, c = und
+        later = [q['id'] for q, _ in run if q['id'] > p['id']]
+        return [('serial:undecodable-output-fails-step',
+                 f"command {p['id']} ran and exited {p['code']}; its captured output {impl.eff_out(p)[:12]!r}/"
+                 f"{impl.eff_err(p)[:12]!r} is not text in {c['enc'] or 'the default encoding'}: the step raises "
+                 f"{o['err']['type']} - neither an exit error nor a spawn error -, cmdOut has no result for it "
+                 f"(results for {[r.get('id') for r in o['results']]}), commands {later} declared after it never "
+                 f"ran (started {o['started']})", UNDEC)]
+    procs = [p for c in cmds for p in c['procs']]
+    if o['started'] != [p['id'] for p, _ in run]:
         bad.append(('serial:started-not-declaration-prefix-through-first-failure',
                     f"started {o['started']}, declaration {[(p['id'], fault_of(p), p['code']) for p in procs]}"))
     by_id = {p['id']: p for p in procs}
     # success iff every command it ran exited 0 - judged on what it did run (marker files) and on what it had
     # to attempt (a command that cannot be started has not exited 0 either)
     ran_nonzero = [(i, by_id[i]['code']) for i in o['started'] if i in by_id and by_id[i]['code'] != 0]
-    should_fail = any(failed(p) for p in att)
+    should_fail = first_fail is not None
     if (o['err'] is None) == should_fail or (o['err'] is None and ran_nonzero):
         bad.append(('serial:success-iff-all-exit-0', f"error={o['err']}; commands run that exited non-zero {ran_nonzero}; "
-                    f"outcomes of the commands to attempt = {[(p['id'], fault_of(p), p['code']) for p in att]}"))
+                    f"outcomes of the commands to attempt = {[(p['id'], fault_of(p), p['code']) for p, _ in att]}, "
+                    f"first failure {first_fail}"))
     if o['err'] is not None:
-        ff = next((p for p in procs if failed(p)), None)
-        if ff is None or error_key(o['err']) != failure_key(ff) or \
+        if first_fail is None or error_key(o['err']) != first_fail or \
                 ('id' in o['err'] and (not o['err'].get('cmd_ok') or o['err'].get('type') != 'subprocess.CalledProcessError')):
             bad.append(('serial:error-carries-first-failing-command-and-code',
-                        f"error {o['err']}, first failure {ff and failure_key(ff)}"))
-    want = [(p, t) for (p, s, t) in decls if s and p['id'] in o['started'] and not p.get('spawn')]
-    bad += check_results(o['results'], want, 'serial')
+                        f"error {o['err']}, first failure {first_fail}"))
+    want = [(p, c) for (p, c) in run if c['save'] and p['id'] in o['started']]
+    bad += check_results(o['results'], want, 'serial', False)
+    # cmdOut belongs to `save`: a step none of whose commands saves leaves context['cmdOut'] exactly as it found it.
+    # (With `save` and no result the code also leaves it - a stale value of an earlier step survives -: the
+    # property text does not decide that case; it is the model's business, Cmd.cmdOutAfter / theorem cmdOut_after.)
+    if not any(c['save'] for c in cmds) and 'prior' not in o['after']:
+        bad.append(('serial:cmdOut-written-without-save', str(o['after'])[:200]))
     return bad
 
 
 def monitor_async(case, o):
-    lanes = impl.async_lanes(case['cfg'])
+    cmds = impl.commands(case['cfg'])
     bad = []
     for a in o['anomalies']:
         if a[0] == 'not_started_concurrently':
@@ -572,15 +835,30 @@ def monitor_async(case, o):
     if o.get('running_at_return'):
         bad.append(('async:returned-before-every-started-command-finished',
                     f"still running when the step returned: {o['running_at_return']}"))
-    want_started, want_fail, want_res, want_exc = [], [], [], []
-    for ps, save, text in lanes:
-        att = attempted_prefix(ps)
-        run = actually_run(ps)
-        want_started += [p['id'] for p in run]
-        want_fail += [failure_key(p) for p in att if failed(p)]
-        if save:
-            want_res += [(p, text) for p in run]
-            want_exc += [failure_key(p)[:2] for p in att if p.get('spawn')]
+    want_started, want_fail, want_res, want_exc, und = [], [], [], [], []
+    for c in cmds:
+        if impl.bad_target(c):
+            want_fail.append(open_key(c))      # none of its commands is started
+            continue
+        for ps in c['entries']:
+            att = attempted_prefix(ps)
+            run = actually_run(ps)
+            want_started += [p['id'] for p in run]
+            want_fail += [failure_key(p) for p in att if failed(p)]
+            und += [(p, c) for p in run if undecodable(p, c, True)]
+            if c['save']:
+                want_res += [(p, c) for p in run]
+                want_exc += [failure_key(p)[:2] for p in att if p.get('spawn')]
+    # --- undecodable captured output (see monitor_serial)
+    dec_errs = {error_key(e)[1] for e in o['errors'] if error_key(e)[0] == 'decode'}
+    hit = [(p, c) for p, c in und if p['id'] in dec_errs]
+    if hit:
+        p, c = hit[0]
+        return bad + [('async:undecodable-output-fails-step',
+                       f"command {p['id']} ran and exited {p['code']}; its captured output is not text in "
+                       f"{c['enc'] or 'the default encoding'}: the aggregate error lists "
+                       f"{[e for e in o['errors'] if 'decode' in e]} - not an exit status -, cmdOut holds the exception "
+                       f"object in place of its result, a serial sub-list ends there (started {o['started']})", UNDEC)]
     if o['started'] != sorted(want_started):
         bad.append(('async:started-set', f"started {o['started']}, expected {sorted(want_started)}"))
     got_fail = sorted(error_key(e) for e in o['errors'])
@@ -604,7 +882,7 @@ def monitor_async(case, o):
         if any('id' not in r for r in results):
             bad.append(('async:cmdOut-holds-non-result', str(flat)[:300]))
         else:
-            bad += check_results(results, want_res, 'async')
+            bad += check_results(results, want_res, 'async', True)
         # anything else in cmdOut can only be the exception of a command that could not be started
         if sorted(error_key(e)[:2] for e in excs) != sorted(want_exc):
             bad.append(('async:cmdOut-exception-entries', f'{excs}, unstartable commands of save commands {want_exc}'))
@@ -613,10 +891,23 @@ def monitor_async(case, o):
 
 def case_fault(case):
     """Kinds of failure in the case, for counters and signatures."""
-    if case['kind'] == 'serial':
-        fs = [fault_of(p) for p in attempted_prefix([p for p, _, _ in impl.serial_decls(case['cfg'])]) if failed(p)]
-    else:
-        fs = [fault_of(p) for ps, _, _ in impl.async_lanes(case['cfg']) for p in attempted_prefix(ps) if failed(p)]
+    is_async = case['kind'] == 'async'
+    fs = []
+    stop = False
+    for c in impl.commands(case['cfg']):
+        if stop:
+            break
+        if impl.bad_target(c):
+            fs.append('unopenable-output')
+            stop = not is_async
+            continue
+        for ps in (c['entries'] if is_async else [c['procs']]):
+            for p in attempted_prefix(ps):
+                if failed(p):
+                    fs.append(fault_of(p))
+                    stop = not is_async
+                elif undecodable(p, c, is_async):
+                    fs.append(UNDEC)
     return '+'.join(sorted(set(fs))) or 'none'
 
 
@@ -640,6 +931,7 @@ def execute(env, res, cases):
             jobs.append((i, c, m.get('trace')))
         got = {}
         nviol = 0
+        known = common.load_known('C17')
         it = pool.imap_unordered(impl.worker, jobs, chunksize=1)
         for _ in range(len(jobs)):
             try:
@@ -650,7 +942,11 @@ def execute(env, res, cases):
             if 'infra' in o:
                 raise common.Infra(f'C17 case {idx}: {o["infra"]}')
             got[idx] = o
-            nviol += judge(res, cases[idx], models[idx], o)
+            before = len(res.findings)
+            judge(res, cases[idx], models[idx], o)
+            # a registered known finding does not count towards "enough failing inputs"
+            nviol += sum(1 for f in res.findings[before:]
+                         if f['kind'] == 'property' and not common.matches_known(f, known))
             if nviol >= 40:       # enough failing inputs; do not sit through thousands of timeouts
                 res.extra['stopped_early'] = f'{nviol} violations after {len(got)} of {len(jobs)} cases'
                 break
@@ -664,26 +960,42 @@ def judge(res, c, m, o):
     mv = model_view(c, m)
     iv = impl_view(c, o)
     failing = bool(mv.get('err') or mv.get('errors'))
-    nstart = len(mv['started'])
+    nstart = len(mv.get('started', []))
     fault = case_fault(c)
+    cmds = impl.commands(c['cfg'])
     res.case(c, nontrivial=True)
     res.count(f"{c['kind']}:{c['step']}")
     res.count('shape:' + c['shape'].split('/')[0])
     res.count('outcome:' + ('error' if failing else 'ok'))
     res.count(f'started:{nstart}/{c["n"]}')
     res.count(f"failure:{c['kind']}:{fault}")
+    for cm in cmds:
+        if cm['enc']:
+            res.count(f"encoding:{cm['enc']}")
+        for k in ('stdout', 'stderr'):
+            t = cm[k]
+            if t is not None:
+                res.count(f"redirect:{k}:" + (t if isinstance(t, str) else
+                                              ('file:' + (t.get('bad') or ('append' if cm['append'] else 'write')))))
     if c.get('big'):
         res.count(f"big-output:{c['kind']}")
     if 'pos' in c:
         res.count(f"faultpos:{c['kind']}:{c['fault']}@{c['pos']}")
     if c['kind'] == 'async':
         res.count(f"lanes:{c['lanes']}")
+    else:
+        res.count('prev-cmdOut:' + c.get('prev', 'str'))
+        if 'prior' in (o.get('after') or {}) and any(cm['save'] for cm in cmds) and c.get('prev', 'str') != 'absent':
+            # `save`, no result: what an earlier step left in cmdOut is still there (Cmd.cmdOut_after)
+            res.count('stale-cmdOut-survives-a-save-step')
     if 'hang' in o:
         bad = monitor_hang(c, o)
     else:
         bad = monitor_serial(c, o) if c['kind'] == 'serial' else monitor_async(c, o)
-    for clause, detail in bad:
-        res.violation(c, f'{clause}: {detail}', signature={'step': c['step'], 'clause': clause, 'failure': fault},
+    for item in bad:
+        clause, detail = item[0], item[1]
+        failure = item[2] if len(item) > 2 else fault
+        res.violation(c, f'{clause}: {detail}', signature={'step': c['step'], 'clause': clause, 'failure': failure},
                       impl=iv)
     if mv != iv:
         res.mismatch(c, mv, iv)
@@ -701,6 +1013,186 @@ def stratified(rng, cases, key, per):
     return out
 
 
+# --------------------------------------------------------------------------
+# the constructors: configuration value -> Command objects (model parser vs CmdStep / AsyncCmdStep)
+# --------------------------------------------------------------------------
+
+PNAMES = ['p%d' % i for i in range(1, 10)]
+NOISE = [5, 0, None, True, False, 1.5, '', {'a': 1}, {'d': 1, 'run': None}, [], (), {'s', 't'}]
+DIRECTED_CFG = [
+    (True, 'p1'), (True, ''), (True, None), (False, None), (True, 5), (True, 0), (True, True), (True, 2.5), (True, {'x', 'y'}),
+    (True, []), (True, ()), (True, ['p1', 'p2']), (True, ('p1', 'p2')), (True, ['p1', 5]), (True, ['p1', None]),
+    (True, ['p1', ['p2', 'p3']]), (True, [['p1'], ['p2', 'p3']]), (True, ['p1', ('p2', 'p3')]), (True, [[]]),
+    (True, ['p1', ['p2', ['p3']]]), (True, ['p1', ['p2', 5]]),
+    (True, {}), (True, {'save': True}), (True, {'run': None}), (True, {'run': ''}), (True, {'run': []}), (True, {'run': 0}),
+    (True, {'run': 'p1'}), (True, {'run': ['p1', 'p2']}), (True, {'run': ('p1', 'p2')}), (True, {'run': ['p1', ['p2', 'p3']]}),
+    (True, {'run': [['p1', 'p2']]}), (True, {'run': [[]]}), (True, {'run': 5}), (True, {'run': ['p1', 5]}),
+    (True, {'run': 'p1', 'save': True}), (True, {'run': 'p1', 'save': 'True'}), (True, {'run': 'p1', 'save': 'tRuE'}),
+    (True, {'run': 'p1', 'save': '1'}), (True, {'run': 'p1', 'save': '1.0'}), (True, {'run': 'p1', 'save': 'yes'}),
+    (True, {'run': 'p1', 'save': 1}), (True, {'run': 'p1', 'save': 0}), (True, {'run': 'p1', 'save': None}),
+    (True, {'run': 'p1', 'save': [0]}), (True, {'run': 'p1', 'save': True, 'bytes': True}),
+    (True, {'run': 'p1', 'save': True, 'bytes': 'False'}), (True, {'run': 'p1', 'save': True, 'bytes': 0}),
+    (True, {'run': 'p1', 'bytes': True}), (True, {'run': 'p1', 'save': True, 'stdout': '@f1'}),
+    (True, {'run': 'p1', 'save': True, 'stderr': '@f1'}), (True, {'run': 'p1', 'save': True, 'stdout': ''}),
+    (True, {'run': 'p1', 'save': True, 'stdout': None, 'stderr': 0}), (True, {'run': 'p1', 'save': False, 'stdout': '@f1'}),
+    (True, {'run': 'p1', 'stdout': '/dev/null', 'stderr': '/dev/stdout'}), (True, {'run': 'p1', 'stdout': '/dev/stdout'}),
+    (True, {'run': 'p1', 'stderr': '/dev/null', 'append': True}), (True, {'run': 'p1', 'stdout': '@f1', 'append': 'false'}),
+    (True, {'run': 'p1', 'stdout': '@f1', 'append': 0}), (True, {'run': 'p1', 'stdout': 7}),
+    (True, {'run': 'p1', 'encoding': 'utf-8'}), (True, {'run': 'p1', 'encoding': ''}), (True, {'run': 'p1', 'encoding': None}),
+    (True, {'run': 'p1', 'encoding': 5}), (True, {'run': 'p1', 'cwd': '@cwd1'}), (True, {'run': 'p1', 'cwd': None}),
+    (True, {'run': 'p1', 'cwd': 5}), (True, {'run': 'p1', 'shell': True}), (True, {'run': 'p1', 'shell': False}),
+    (True, {'run': 'p1', 'shell': None}), (True, {'run': 'p1', 'shell': 0}), (True, {'run': 'p1', 'shell': 'x'}),
+    (True, ['p1', {'run': 'p2', 'save': True}, {'run': ['p3', 'p4'], 'stdout': '@f1'}]),
+    (True, ['p1', {'run': 'p2', 'save': True, 'stderr': '@f2'}, 'p3']), (True, ['p1', {'save': True}, 5]),
+    (True, [{'run': ''}, 5]), (True, [5, {'run': ''}]), (True, ('p1', {'run': 'p2'})), (True, ['p1', {'s'}]),
+]
+
+
+def gen_cfg_value(rng, is_async):
+    def pn():
+        return rng.choice(PNAMES)
+
+    def sub():
+        r = rng.random()
+        xs = [pn() for _ in range(rng.randint(0, 3))]
+        if r < 0.1:
+            xs.insert(rng.randint(0, len(xs)), rng.choice(NOISE))
+        return tuple(xs) if rng.random() < 0.2 else xs
+
+    def run_value():
+        r = rng.random()
+        if r < 0.35:
+            return pn()
+        if r < 0.45:
+            return rng.choice(NOISE)
+        xs = []
+        for _ in range(rng.randint(0, 4)):
+            q = rng.random()
+            xs.append(pn() if q < 0.7 else (sub() if q < 0.93 else rng.choice(NOISE)))
+        return tuple(xs) if rng.random() < 0.15 else xs
+
+    def a_map():
+        m = {}
+        if rng.random() < 0.92:
+            m['run'] = run_value()
+        if rng.random() < 0.55:
+            m['save'] = rng.choice([True, False, 'True', 'true', 'FALSE', '1', '1.0', '0', 'yes', '', 1, 0, None, [1], []])
+        if rng.random() < 0.35:
+            m['bytes'] = rng.choice([True, False, 'False', 0, 1, None, ''])
+        if rng.random() < 0.3:
+            m['encoding'] = rng.choice(['utf-8', 'latin-1', 'ascii', '', None, 0] + ([5] if rng.random() < 0.1 else []))
+        if rng.random() < 0.35:
+            m['stdout'] = rng.choice(['@f1', '@f2', '/dev/null', '/dev/stdout', '', None, 0, False] + ([7] if rng.random() < 0.1 else []))
+        if rng.random() < 0.35:
+            m['stderr'] = rng.choice(['@f3', '@f1', '/dev/null', '/dev/stdout', '', None, 0] + ([7] if rng.random() < 0.1 else []))
+        if rng.random() < 0.3:
+            m['append'] = rng.choice([True, False, 'false', 0, 1, None, ''])
+        if rng.random() < 0.25:
+            m['shell'] = rng.choice([True, False, None, 0, 1, '', 'x'])
+        if rng.random() < 0.2:
+            m['cwd'] = rng.choice(['@cwd1', None] + ([5] if rng.random() < 0.2 else []))
+        if rng.random() < 0.1:
+            m['junk'] = 1
+        return m
+
+    def item():
+        r = rng.random()
+        if r < 0.4:
+            return pn()
+        if r < 0.75:
+            return a_map()
+        if r < 0.9:
+            return sub()
+        return rng.choice(NOISE)
+    r = rng.random()
+    if r < 0.12:
+        return True, pn()
+    if r < 0.4:
+        return True, a_map()
+    if r < 0.93:
+        xs = [item() for _ in range(rng.randint(0, 4))]
+        return True, (tuple(xs) if rng.random() < 0.1 else xs)
+    if r < 0.96:
+        return False, None
+    return True, rng.choice(NOISE)
+
+
+def ref_decls(value, is_async):
+    """Declaration order read off a well-formed configuration value (the harness's own two lines)."""
+    def strings(run):
+        if isinstance(run, str):
+            return [run]
+        out = []
+        for x in run:
+            out += [x] if isinstance(x, str) else list(x)
+        return out
+    items = list(value) if isinstance(value, (list, tuple)) else [value]
+    out = []
+    for it in items:
+        if isinstance(it, str):
+            out.append([it, False, False])
+        elif isinstance(it, dict):
+            from pypyr.utils.types import cast_to_bool
+            save = cast_to_bool(it.get('save', False))
+            out += [[x, save, bool(save and not it.get('bytes'))] for x in strings(it['run'])]
+        else:
+            out += [[x, False, False] for x in it]
+    return out
+
+
+def check_parse(env, res, n):
+    """`cmd.parse` (Cmd.parseCmdConfig) vs CmdStep(...) / AsyncCmdStep(...): the Command objects built - run
+    strings incl. nesting, shell, cwd, save, text, encoding, stdout, stderr, append - or the exception raised
+    (type + which message). A configuration the constructor refuses also goes through the whole step: same error,
+    nothing started, cmdOut untouched."""
+    rng = env.rng
+    cases = []
+    for present, v in DIRECTED_CFG:
+        for is_async in (False, True):
+            for shell in (False, True):
+                cases.append((present, v, is_async, shell))
+    for _ in range(n):
+        is_async = rng.random() < 0.5
+        present, v = gen_cfg_value(rng, is_async)
+        cases.append((present, v, is_async, rng.random() < 0.3))
+    run_parse_cases(env, res, cases)
+
+
+def run_parse_cases(env, res, cases):
+    reqs = []
+    for present, v, is_async, shell in cases:
+        pl = {'async': is_async, 'shell': shell}
+        if present:
+            pl['cfg'] = common.enc(v)
+        reqs.append(('cmd.parse', pl))
+    models = env.driver.ask_many(reqs)
+    for (present, v, is_async, shell), m in zip(cases, models):
+        case = {'kind': 'parse', 'async': is_async, 'shell': shell, 'present': present,
+                'value': common.enc(v) if present else None}
+        if isinstance(m, common.Reject):
+            res.count('parse:outside-model')
+            continue
+        real = impl.ctor_obs(v, present, is_async, shell)
+        res.case(case, nontrivial=True)
+        res.count('parse:' + ('async' if is_async else 'serial') + ':' + ('err:' + m['err']['msg'] if 'err' in m else 'ok'))
+        dflt = real.pop('default_encoding', None)
+        mv = {'err': m['err']} if 'err' in m else {'ok': [{**c, 'encoding': c['encoding'] or dflt} for c in m['ok']]}
+        if mv != real:
+            res.mismatch(case, mv, real)
+            continue
+        if 'ok' in m:
+            # declaration order: the model's flatten (theorem parse_declaration_order) vs the harness's own reading
+            want = ref_decls(v, is_async)
+            if m['decls'] != want:
+                res.mismatch({**case, 'layer': 'declaration order'}, m['decls'], want)
+        else:
+            step = ('shells' if shell else 'cmds') if is_async else ('shell' if shell else 'cmd')
+            r2 = impl.ctor_run_obs(v, present, step)
+            want = {'err': m['err'], 'cmdOut_untouched': True}
+            if r2 != want:
+                res.mismatch({**case, 'layer': 'run_step'}, want, r2)
+
+
 def run(env, res):
     res.rule = ('directed A: every exit-code vector over {0,1,3} for 1-4 commands x configuration shapes (single string, '
                 'expanded map, flat list, list of maps with own save flags, run: list, mixed lists, nested serial '
@@ -713,33 +1205,57 @@ def run(env, res):
                 'position); then a random stream with any mix of outcomes and arbitrary schedules. Every case runs '
                 'real subprocesses (marker files prove which commands started); non-trivial = all. directed C: a '
                 'command writing more than a pipe buffer (70 KB / 300 KB) to stdout, stderr or both x save text / '
-                'bytes / off x position x sync and async shapes. Each case runs in its own process group under a '
+                'bytes / off x position x sync and async shapes. directed D: a command whose output is not text '
+                '(ff fe ...) on stdout / stderr at each position of 1-3 commands, exit 0 / 3 x save text / bytes / '
+                'bytes+encoding / utf-8 / ascii / latin-1 / off x run list / list of maps / lanes / serial sub-list. '
+                'directed E: stdout / stderr to a new file, an existing file (overwrite / append), /dev/null, '
+                '/dev/stdout, a path that is a directory or whose parent is a file x exit-code vectors x alone / '
+                'framed by a save command and a plain one / after a failing command, sync and async; final file '
+                'contents are compared. Serial cases rotate what context[cmdOut] holds before the step (a string, a '
+                'list, nothing). P: the constructors alone on directed + random configuration values incl. '
+                'malformed ones (model parser vs CmdStep/AsyncCmdStep: Command attributes or exception; refused '
+                'configurations also through run_step). Each process case runs in its own process group under a '
                 '25 s deadline: a step that does not return is a violation (step-never-returned) with the case as '
                 'replay; for cmds/shells the commands still running at the moment the step returns are observed '
                 '(must be none).')
+    check_parse(env, res, env.n(1500, 20000))
     ser, asy = serial_cases(env), async_cases(env)
     fser, fasy = serial_fault_cases(env), async_fault_cases(env)
     big = big_output_cases(env)
+    dec = decode_cases(env)
+    red = redirect_cases(env)
     res.extra['directed_set'] = {'serial': len(ser), 'async': len(asy), 'serial_faults': len(fser),
-                                 'async_faults': len(fasy), 'big_outputs': len(big)}
+                                 'async_faults': len(fasy), 'big_outputs': len(big), 'undecodable': len(dec),
+                                 'redirects': len(red)}
     if env.quick:
         def allzero(c):
             return all(not failed(p) for p in case_procs(c).values())
         zs, za = [c for c in ser if allzero(c)], [c for c in asy if allzero(c)]
-        ser = env.rng.sample(zs, min(len(zs), 30)) + env.rng.sample(ser, min(len(ser), 150))
-        asy = env.rng.sample(za, min(len(za), 30)) + env.rng.sample(asy, min(len(asy), 140))
+        ser = env.rng.sample(zs, min(len(zs), 25)) + env.rng.sample(ser, min(len(ser), 120))
+        asy = env.rng.sample(za, min(len(za), 25)) + env.rng.sample(asy, min(len(asy), 110))
         key = lambda c: (c['step'], c['fault'], c['pos'])
-        fser = stratified(env.rng, fser, key, 12)
-        fasy = stratified(env.rng, fasy, key, 8)
+        fser = stratified(env.rng, fser, key, 10)
+        fasy = stratified(env.rng, fasy, key, 7)
         rnd = random_cases(env, 150)
         big = stratified(env.rng, big, lambda c: (c['kind'], c['shape'].split('/')[0]), 3)
+        dec = stratified(env.rng, dec, lambda c: (c['kind'], c['decode'], c['fault']), 4)
+        red = stratified(env.rng, red, lambda c: (c['kind'], c['redirect']), 3)
     else:
         rnd = random_cases(env, 1200)
-    execute(env, res, fser + fasy + big + ser + asy + rnd)
+    cases = dec + red + fser + fasy + big + ser + asy + rnd
+    k = 0
+    for c in cases:
+        if c['kind'] == 'serial' and 'prev' not in c:
+            c['prev'] = ('str', 'list', 'absent')[k % 3]
+            k += 1
+    execute(env, res, cases)
 
 
 def replay(env, res, case):
     c = case.get('case', case)
     if isinstance(c, dict) and 'first_diverging_case' in c:
         c = c['first_diverging_case']['case']
+    if c.get('kind') == 'parse':
+        run_parse_cases(env, res, [(c['present'], common.dec(c['value']) if c['present'] else None, c['async'], c['shell'])])
+        return
     execute(env, res, [c])
